@@ -116,6 +116,59 @@ MODEL_OPS = {
 }
 
 
+def named_funcs(bct):
+    """single public routines (with their non-default options) used by the history / object-reuse probes"""
+    return {
+        'distance_wei': lambda A: bct.distance_wei(A), 'distance_bin': lambda A: bct.distance_bin(A),
+        'betweenness_wei': lambda A: bct.betweenness_wei(A), 'betweenness_bin': lambda A: bct.betweenness_bin(A),
+        'edge_betweenness_wei': lambda A: bct.edge_betweenness_wei(A), 'edge_betweenness_bin': lambda A: bct.edge_betweenness_bin(A),
+        'efficiency_wei': lambda A: bct.efficiency_wei(A), 'efficiency_bin': lambda A: bct.efficiency_bin(A),
+        'efficiency_wei_local': lambda A: bct.efficiency_wei(A, True), 'efficiency_bin_local': lambda A: bct.efficiency_bin(A, True),
+        'efficiency_wei_original': lambda A: bct.efficiency_wei(A, 'original'),
+        'strengths_dir': lambda A: bct.strengths_dir(A), 'degrees_dir': lambda A: bct.degrees_dir(A),
+        'strengths_und': lambda A: bct.strengths_und(A), 'degrees_und': lambda A: bct.degrees_und(A),
+        'assortativity_wei': lambda A: bct.assortativity_wei(A, 0), 'assortativity_bin': lambda A: bct.assortativity_bin(A, 0),
+        'clustering_coef_wd': lambda A: bct.clustering_coef_wd(A), 'clustering_coef_bd': lambda A: bct.clustering_coef_bd(A),
+        'clustering_coef_wu': lambda A: bct.clustering_coef_wu(A), 'clustering_coef_bu': lambda A: bct.clustering_coef_bu(A),
+        'transitivity_wd': lambda A: bct.transitivity_wd(A), 'transitivity_bd': lambda A: bct.transitivity_bd(A),
+        'transitivity_wu': lambda A: bct.transitivity_wu(A), 'transitivity_bu': lambda A: bct.transitivity_bu(A),
+        'kcore_bd': lambda A: bct.kcore_bd(A, 2), 'kcore_bu': lambda A: bct.kcore_bu(A, 2),
+        'reachdist': lambda A: bct.reachdist(A), 'breadthdist': lambda A: bct.breadthdist(A),
+    }
+
+
+def _pairs(a, b):
+    return [[a, a], [b, b], [a, b], [b, a], [a, b, a]]
+
+
+_DIR = (_pairs('distance_wei', 'distance_bin') + _pairs('betweenness_wei', 'betweenness_bin') + _pairs('edge_betweenness_wei', 'edge_betweenness_bin') +
+        _pairs('efficiency_wei', 'efficiency_bin') + _pairs('efficiency_wei_local', 'efficiency_bin_local') + _pairs('strengths_dir', 'degrees_dir') +
+        _pairs('clustering_coef_wd', 'clustering_coef_bd') + _pairs('transitivity_wd', 'transitivity_bd') +
+        # an option away from its default followed by the default, and routines sharing internals
+        [['efficiency_bin_local', 'efficiency_bin'], ['efficiency_wei_local', 'efficiency_wei'], ['efficiency_wei_original', 'efficiency_wei_local'],
+         ['distance_wei', 'efficiency_wei'], ['distance_bin', 'efficiency_bin'], ['efficiency_bin', 'distance_bin'], ['clustering_coef_wd', 'transitivity_wd'],
+         ['transitivity_wd', 'clustering_coef_wd'], ['kcore_bd', 'kcore_bd'], ['reachdist', 'distance_bin'], ['breadthdist', 'distance_bin'],
+         ['betweenness_bin', 'edge_betweenness_bin'], ['edge_betweenness_wei', 'betweenness_wei']])
+_UND = (_pairs('clustering_coef_wu', 'clustering_coef_bu') + _pairs('transitivity_wu', 'transitivity_bu') + _pairs('strengths_und', 'degrees_und') +
+        _pairs('assortativity_wei', 'assortativity_bin') + _pairs('clustering_coef_bd', 'clustering_coef_bu') + _pairs('clustering_coef_wd', 'clustering_coef_wu') +
+        [['kcore_bu', 'kcore_bu'], ['transitivity_bd', 'transitivity_bu'], ['transitivity_wd', 'transitivity_wu']])
+PROBE_SEQS = {'01d': _DIR, '01u': _UND + _DIR[:20], 'symw': _pairs('clustering_coef_wd', 'clustering_coef_wu') + _pairs('transitivity_wd', 'transitivity_wu'),
+              'symg': _pairs('clustering_coef_wd', 'clustering_coef_wu') + [['transitivity_wd', 'transitivity_wu']]}
+
+
+def run_probe(task):
+    bct = import_bct()
+    NF = named_funcs(bct)
+    W, R = cc.case_mats(task['base'])
+    Wf = cc.fl(W)
+    kind = task['base']['kind']
+    rs = np.random.RandomState(task['pseed'])
+    vals = [1.0] if kind in ('01u', '01d') else [.125, .5, 1.0]
+    edit = cc.pick_edit(rs, Wf, kind != '01d', vals) if task['edit'] else None
+    d = cc.seq_probe([NF[x] for x in task['seq']], Wf, edit, task['scrib'], t=2.5)
+    return {'probe': True, 'fail': d, 'edit': edit}
+
+
 _TIMEOUTS = {}      # per worker process: label -> number of watchdog hits (a hanging routine must not stall the whole check)
 
 
@@ -153,6 +206,8 @@ def run_pair(label, f, g, Wf, pred, exact, cond, res, t=2.5, rep=None):
 
 
 def run_case(case):
+    if case['kind'] == 'probe':
+        return run_probe(case)
     bct = import_bct()
     W, R = cc.case_mats(case)
     kind = case['kind']; n = len(W)
@@ -242,6 +297,10 @@ def gen_cases(rs, tier):
         for tag, M in cc.structured(rs, n, True):
             add('01d', M, 'struct-' + tag)
     cases += cc.add_reps(rs, cases, .3 if thorough else .2, ('01u', '01d'), ('symw', 'symg'))
+    cases += cc.make_probes(rs, cases, PROBE_SEQS, 520 if thorough else 110)
+    # hidden state carried between calls only shows when a worker runs other routines / sizes before the call under test:
+    # never group by routine or size
+    cases = [cases[int(x)] for x in rs.permutation(len(cases))]
     return cases
 
 
@@ -271,6 +330,8 @@ def main():
     lines, meta = [], []
     ev, br = {}, {}
     for r in results:
+        if r.get('probe'):
+            continue
         for k, v in r['evals'].items():
             ev[k] = ev.get(k, 0) + v
         for k, v in r['both_raise'].items():
@@ -279,6 +340,14 @@ def main():
         if v >= 5 and 2 * v > ev.get(k, 0):
             ck.violation(k, 'raises', {'pair': k, 'why': 'both variants raise on %d of %d evaluations' % (v, ev.get(k, 0))}, {'pair': k, 'kind': 'both-raise'})
     for c, r in zip(cases, results):
+        if c['kind'] == 'probe':
+            ck.count('kind:probe'); ck.count('probe:' + '>'.join(c['seq']))
+            ck.case()
+            if r['fail']:
+                ck.violation(c['seq'][-1], 'result-depends-on-history',
+                             {'case': c, 'sequence': c['seq'], 'edit(i,j,value,symmetric)': r['edit'], 'returned_arrays_edited': c['scrib'], 'probe': r['fail']},
+                             {'pair': c['seq'][-1], 'kind': 'probe'})
+            continue
         W, _ = cc.case_mats(c)
         ck.count('kind:' + c['kind']); ck.count('n=%d' % len(W)); ck.count('pairs evaluated', r['npairs']); ck.count('timeouts', r['timeouts']); ck.count('pairs skipped after repeated timeouts', r['skipped'])
         if c.get('rep'):
